@@ -322,6 +322,10 @@ class Gen12(gen_c10.Gen):
             self.emit(1, f"x: str = 10 ** {r.choice([5000, 4400, 20000])}")
             self.emit(1, f"y = -(10 ** 6000) if x else 2 ** 20000")
             self.emit(1, "reveal_type(y)")
+            if r.random() < 0.5:
+                big = r.choice(["10 ** 30", "10**19", "2 ** 64", "-10 ** 30, 0", "0, 10 ** 30, 10 ** 25", "9223372036854775808"])
+                self.emit(1, r.choice([f"for i in range({big}): reveal_type(i)", f"first, second = range({big})", f"sq = [j for j in range({big}) if j]",
+                                       f"helper(*range({big}))", f"first, *rest = range({big})", f"ok = 5 in range({big})"]))
             self.emit(1, f"return f'{{10 ** 5000}}', [10 ** 4301, '9' * 5000]")
         elif k == 2:
             fn = self.fresh("annc")
@@ -429,6 +433,7 @@ class Gen12(gen_c10.Gen):
             "case 1 | 2:", "case 'a':", "case None:", "case int() | str():", "case int(real=r):", "case [x, y, *rest]:", "case (x, y):",
             "case {'k': v, **kw}:", "case str() as s if s:", "case [int(), str()]:", "case object(zz=1):", "case float(x) if x > 0:",
             "case [] | [_]:", "case {1: _, 2: _}:", "case bool(b):", "case [*_, last]:", "case x if undefined_ww:",
+            "case other.attr:", "case sys.maxsize:", "case asyncio.nope.deeper | 3:", "case [other.a, int()]:", "case {'k': other.k}:",
         ]
         for c in r.sample(cases, r.randrange(2, 6)):
             self.emit(2, c)
@@ -455,6 +460,11 @@ class Gen12(gen_c10.Gen):
         g = self.fresh("gen")
         self.emit(0, f"def {g}(n: int):")
         self.emit(1, "got = yield n")
+        if r.random() < 0.35:
+            # yields in other statement positions than `x = yield` / a bare `yield`
+            for line in r.sample(["got += yield n", "got += yield", "later = yield", "later = yield got", "got -= (yield)", "helper((yield n))",
+                                  "n, got = (yield), (yield 2)", "if (yield n): pass", "later: int = yield", "return (yield)"], r.randrange(1, 4)):
+                self.emit(1, line)
         self.emit(1, f"yield from {r.choice(['range(n)', 'n', g + '(1)', '[got]'])}")
         self.emit(1, f"return {r.choice(LITS)}")
         self.emit(0, f"def {self.fresh('use')}():")
@@ -540,6 +550,94 @@ class Gen12(gen_c10.Gen):
         self.emit(1, f"return {r.choice(unhashable)} if c else {r.choice(members)}")
         self.emit(0, "")
 
+    def decl_order_section(self):
+        """declaration-before-binding orders: nonlocal / global before the owner's assignment, module-level
+        uses of names defined further down (inside functions, so the module still imports), methods that
+        read class attributes defined after them, forward references in defaults and decorators of
+        never-executed nested definitions"""
+        r = self.rng
+        self.features.add("decl_order")
+        k = r.randrange(6)
+        v = self.fresh("late")
+        if k == 0:
+            fn = self.fresh("owner")
+            self.emit(0, f"def {fn}(a: {r.choice(ANNOTS)} = None):  # type: ignore")
+            self.emit(1, "def inner():")
+            self.emit(2, f"nonlocal {v}")
+            self.emit(2, r.choice([f"{v} += 1", f"{v} = {r.choice(LITS)}", f"reveal_type({v})", f"del {v}", f"for {v} in (1, 2): pass"]))
+            self.emit(2, f"return {v}")
+            if r.random() < 0.4:
+                self.emit(1, "def second():")
+                self.emit(2, "def third():")
+                self.emit(3, f"nonlocal {v}")
+                self.emit(3, f"return {v}")
+                self.emit(2, "return third")
+            self.emit(1, r.choice([f"{v} = {r.choice(LITS)}", f"{v}: int = 0", f"for {v} in range(3): pass", f"with open('x') as {v}: pass",
+                                   f"import os as {v}", f"{v}, other = 1, 2", f"if a: {v} = 1\n    else: {v} = 'x'"]))
+            self.emit(1, f"reveal_type({v})")
+            self.emit(1, "return inner")
+        elif k == 1:
+            fn = self.fresh("setg")
+            self.emit(0, f"def {fn}():")
+            self.emit(1, f"global {v}")
+            self.emit(1, r.choice([f"{v} = {r.choice(LITS)}", f"{v} += 1", f"del {v}", f"reveal_type({v})", f"{v}.append(1)"]))
+            self.emit(1, f"return {v}")
+            if r.random() < 0.7:
+                self.emit(0, f"{v} = {r.choice(LITS)}")
+            else:
+                self.emit(0, f"def {self.fresh('setg')}():")
+                self.emit(1, f"global {v}")
+                self.emit(1, f"{v} = {r.choice(LITS)}")
+        elif k == 2:
+            fn, later, cls = self.fresh("early"), self.fresh("later"), self.fresh("LaterCls")
+            self.emit(0, f"def {fn}(x):")
+            self.emit(1, f"y = {later}(x, {cls}())")
+            self.emit(1, f"reveal_type({later})")
+            self.emit(1, f"reveal_type({cls}.attr)")
+            self.emit(1, f"z: {cls} = {cls}()")
+            self.emit(1, f"return {v}, y, z")
+            self.emit(0, f"def {later}(a: int, b: '{cls}') -> '{cls}': return b")
+            self.emit(0, f"class {cls}:")
+            self.emit(1, f"attr = {r.choice(LITS)}")
+            self.emit(0, f"{v} = {later}(1, {cls}())")
+        elif k == 3:
+            cls = self.fresh("Early")
+            self.emit(0, f"class {cls}:")
+            self.emit(1, "def first(self):")
+            self.emit(2, f"reveal_type(self.{v})")
+            self.emit(2, f"reveal_type({cls}.{v})")
+            self.emit(2, f"return self.second(self.{v}) + self.{v}_inst")
+            self.emit(1, "@property")
+            self.emit(1, f"def prop(self) -> '{cls}': return self.{v}_inst")
+            self.emit(1, f"def second(self, a): return a")
+            self.emit(1, f"{v} = {r.choice(LITS)}")
+            self.emit(1, "def __init__(self):")
+            self.emit(2, f"self.{v}_inst = {r.choice(LITS)}")
+        elif k == 4:
+            fn, deco, dflt = self.fresh("never"), self.fresh("deco_late"), self.fresh("dflt_late")
+            self.emit(0, f"def {fn}():")
+            self.emit(1, f"@{deco}")
+            self.emit(1, f"def inner(a={dflt}, *, b={dflt}.real, c: '{v}' = None) -> '{v}': return a  # type: ignore")
+            self.emit(1, f"@{deco}({dflt})  # type: ignore")
+            self.emit(1, f"class Inner({v}): pass  # type: ignore")
+            self.emit(1, f"lam = lambda q={dflt}: q")
+            self.emit(1, "return inner, Inner, lam")
+            self.emit(0, f"def {deco}(f): return f")
+            self.emit(0, f"{dflt} = {r.choice(['1', '2.5', 'True'])}")
+            self.emit(0, f"class {v}: pass")
+        else:
+            fn = self.fresh("owner")
+            self.emit(0, f"def {fn}():")
+            self.emit(1, "class Local:")
+            self.emit(2, "def method(self):")
+            self.emit(3, f"nonlocal {v}")
+            self.emit(3, f"{v} = {r.choice(LITS)}")
+            self.emit(3, f"return [{v} for _ in range(2)], (lambda: {v})()")
+            self.emit(1, f"gen = ({v} for _ in range(2))")
+            self.emit(1, f"{v} = {r.choice(LITS)}")
+            self.emit(1, f"return Local, gen")
+        self.emit(0, "")
+
     def program(self):
         r = self.rng
         self.lines = [gen_c10.HEADER + HEADER_EXTRA, "def helper(x, *, aa=0): return x", ""]
@@ -554,6 +652,7 @@ class Gen12(gen_c10.Gen):
             self.format_spec_section, self.format_spec_section, self.unpack_kwargs_section, self.typevar_truthiness_section,
             self.typevar_truthiness_section, self.fixable_mix_section, self.fixable_mix_section, self.fixable_mix_section,
             self.hostile_literal_section, self.hostile_literal_section,
+            self.decl_order_section, self.decl_order_section, self.decl_order_section,
         ]
         for _ in range(r.randrange(3, 7)):
             r.choice(pieces)()
